@@ -545,6 +545,27 @@ def main():
                 k["decision_domains"] = spec["decision"]
             return BacktrackSolver(problem, **k)
 
+        def apply_rewrite(problem):
+            rw = spec.get("rewrite")
+            if not rw:  # C13 at scale: meaning-preserving rewrites of a shipped model
+                return
+            import random
+
+            from nucs.propagators.propagators import ALG_AFFINE_LEQ, ALG_DUMMY
+
+            rng = random.Random(rw["seed"])
+            nvars = len(problem.dom_indices_lst)
+            if rw.get("duplicate") and problem.propagators:
+                for _ in range(rw["duplicate"]):
+                    vs, alg, params = problem.propagators[rng.randrange(len(problem.propagators))]
+                    problem.add_propagator((list(vs), alg, list(params)))
+            if rw.get("always_true"):
+                a, b = rng.randrange(nvars), rng.randrange(nvars)
+                problem.add_propagator(([a, b], ALG_DUMMY, []))
+                problem.add_propagator(([a], ALG_AFFINE_LEQ, [1, 10 ** 6]))
+            if rw.get("shuffle"):
+                rng.shuffle(problem.propagators)
+
         problem = build(spec)
         if spec.get("fix_solution") is not None:
             # "the model accepts a known valid object": every variable is fixed to the object's value, within the
@@ -564,24 +585,42 @@ def main():
                 out["invalid"] = None
                 print(json.dumps(out), flush=True)
                 os._exit(0)
-        rw = spec.get("rewrite")
-        if rw:  # C13 at scale: meaning-preserving rewrites of a shipped model
-            import random
-
-            from nucs.propagators.propagators import ALG_AFFINE_LEQ, ALG_DUMMY
-
-            rng = random.Random(rw["seed"])
-            nvars = len(problem.dom_indices_lst)
-            if rw.get("duplicate") and problem.propagators:
-                for _ in range(rw["duplicate"]):
-                    vs, alg, params = problem.propagators[rng.randrange(len(problem.propagators))]
-                    problem.add_propagator((list(vs), alg, list(params)))
-            if rw.get("always_true"):
-                a, b = rng.randrange(nvars), rng.randrange(nvars)
-                problem.add_propagator(([a, b], ALG_DUMMY, []))
-                problem.add_propagator(([a], ALG_AFFINE_LEQ, [1, 10 ** 6]))
-            if rw.get("shuffle"):
-                rng.shuffle(problem.propagators)
+        if spec.get("fix_many") is not None:
+            # many fully instantiated candidates (valid objects and near misses) offered to the model in one interpreter:
+            # the solver must report exactly the valid ones; the search is trivial, so any instance size is within reach
+            validator = VALIDATORS[spec["model"]]
+            sols, bad, refused = [], None, 0
+            expected = 0  # candidates that cover every variable are judged by the definition-level validator
+            for fs in spec["fix_many"]:
+                pb = build(spec)
+                if expected is not None and len(fs) == len(pb.dom_indices_lst):
+                    expected += 1 if validator([int(v) for v in fs], spec) is None else 0
+                else:
+                    expected = None
+                ok = True
+                for v, val in enumerate(fs):
+                    d = pb.dom_indices_lst[v]
+                    sv = val - pb.dom_offsets_lst[v]
+                    lo, hi = pb.shr_domains_lst[d]
+                    if not (lo <= sv <= hi):
+                        ok = False
+                        break
+                    pb.shr_domains_lst[d] = [sv, sv]
+                if not ok:
+                    refused += 1
+                    continue
+                apply_rewrite(pb)
+                for x in mk(pb).solve():
+                    x = [int(v) for v in x]
+                    sols.append(x)
+                    e = validator(x, spec)
+                    if e and bad is None:
+                        bad = {"solution": x[:60], "why": e}
+            out.update(count=len(sols), distinct=len(set(map(tuple, sols))), invalid=bad, refused_by_domains=refused,
+                       expected_by_validator=expected)
+            print(json.dumps(out), flush=True)
+            os._exit(0)
+        apply_rewrite(problem)
         validator = VALIDATORS[spec["model"]]
         nw = spec.get("workers", 0)
         op = spec.get("op", "find_all")
